@@ -338,14 +338,6 @@ func (p c11) Gen(r *simhook.Rand, tier string, idx int) harness.Scenario {
 		sc.Adversaries = append(sc.Adversaries, genClientAdversary(r))
 		sc.Corrupt = append(sc.Corrupt, genCorrupt(r, m))
 	}
-	if sc.Env.Compression != nil && len(sc.Corrupt) > 0 && r.Chance(1, 3) {
-		// a stored value that begins like a compressed one and is not: shorter than the header, unknown algorithm,
-		// empty or broken stream, also nested in an array (the decompression hook of reads looks at it)
-		g := []string{"$3\r\n(P$\r\n", "+(P$\r\n", "$4\r\n(P$\x00\r\n", "$5\r\n(P$\x00\r\r\n", "$6\r\n(P$\x00\r\n\r\n", "$6\r\n(P$\x09\r\n\r\n",
-			"$10\r\n(P$\x00\r\n\xff\xff\xff\xff\r\n", "$16\r\n(P$\x00\r\n\xff\x06\x00\x00sNaPpY\r\n", "*1\r\n$3\r\n(P$\r\n", "*2\r\n$1\r\n0\r\n*1\r\n$4\r\n(P$\x00\r\n", "$2\r\n(P\r\n", "$1\r\n(\r\n"}
-		sc.Corrupt[0] = Corrupt{Node: sc.Corrupt[0].Node, Match: "get", Nth: 1 + r.Intn(2)}
-		sc.Corrupt[0].With.Raw = world.Bin(g[r.Intn(len(g))])
-	}
 	if sc.Env.Compression != nil && len(sc.Corrupt) > 0 && r.Chance(3, 4) {
 		// aim the corruption at a pipelined canary: the backend connection is torn down by the reader while the
 		// writer still holds requests, one of them answered by the compression filter
@@ -353,6 +345,13 @@ func (p c11) Gen(r *simhook.Rand, tier string, idx int) harness.Scenario {
 			sc.Conns[0].Reqs[i].Wait = false
 		}
 		sc.Corrupt[0].Match, sc.Corrupt[0].Nth = "get", 1
+	} else if sc.Env.Compression != nil && len(sc.Corrupt) > 0 {
+		// a stored value that begins like a compressed one and is not: shorter than the header, unknown algorithm,
+		// empty or broken stream, also nested in an array (the decompression hook of reads looks at it)
+		g := []string{"$3\r\n(P$\r\n", "+(P$\r\n", "$4\r\n(P$\x00\r\n", "$5\r\n(P$\x00\r\r\n", "$6\r\n(P$\x00\r\n\r\n", "$6\r\n(P$\x09\r\n\r\n",
+			"$10\r\n(P$\x00\r\n\xff\xff\xff\xff\r\n", "$16\r\n(P$\x00\r\n\xff\x06\x00\x00sNaPpY\r\n", "*1\r\n$3\r\n(P$\r\n", "*2\r\n$1\r\n0\r\n*1\r\n$4\r\n(P$\x00\r\n", "$2\r\n(P\r\n", "$1\r\n(\r\n"}
+		sc.Corrupt[0] = Corrupt{Node: sc.Corrupt[0].Node, Match: "get", Nth: 1 + r.Intn(2)}
+		sc.Corrupt[0].With.Raw = world.Bin(g[r.Intn(len(g))])
 	}
 	// the canary's second round, after the adversaries are done and turned honest
 	pr := ConnScript{Name: "p-canary"}
